@@ -46,7 +46,7 @@ def k_sort(mode: int, d0: bool, d1: bool, d2: bool, p1: int, p2: int) -> str:
 
 MAL = ['none', 'non-trashinfo-file', 'empty-info', 'truncated', 'binary', 'non-utf8', 'no-path', 'no-date', 'invalid-date',
        'info-without-payload', 'payload-without-info', 'subdir-in-info', 'info-is-dir', 'no-header', 'crlf', 'dangling-info-link',
-       'unreadable-dir-entry', 'no-date-same-path', 'invalid-date-same-path']
+       'unreadable-dir-entry', 'no-date-same-path', 'invalid-date-same-path', 'date-with-utc-offset', 'date-with-Z', 'date-with-fraction']
 ORDER = ['insertion', 'reverse']
 TDS = ['/v/.Trash-1000', '/h/.local/share/Trash', '/v/.Trash/1000']
 CMDS = ['list', 'restore-date', 'restore-path', 'restore-none', 'rm', 'empty-days', 'empty', 'rm-abs']
@@ -94,6 +94,9 @@ def mal_nodes(mk, td):
         pv = ('/' + base_rel + '/aa') if td.startswith('/h') else (base_rel + '/aa')
         extra = '' if k.startswith('no-date') else 'DeletionDate=tomorrow\n'
         return [W.f(i + 'm.trashinfo', '[Trash Info]\nPath=%s\n%s' % (pv, extra), 0o600, 4000), W.f(f + 'm', 'M', 0o644, 4001)]
+    if k in ('date-with-utc-offset', 'date-with-Z', 'date-with-fraction'):
+        suffix = {'date-with-utc-offset': '+02:00', 'date-with-Z': 'Z', 'date-with-fraction': '.250'}[k]
+        return [W.f(i + 'm.trashinfo', '[Trash Info]\nPath=w/m\nDeletionDate=2019-03-01T12:00:00%s\n' % suffix, 0o600, 4000), W.f(f + 'm', 'M', 0o644, 4001)]
     if k == 'unreadable-dir-entry':
         return [W.l(i + 'loop.trashinfo', 'loop.trashinfo', 4000)]
     raise ValueError(k)
@@ -190,10 +193,10 @@ def _case(mk, order, tdi, cmd):
 def w_main(mk: int, order: int, tdi: int, cmd: int) -> str:
     """
     pre: PARTITION is None or cmd == PARTITION
-    pre: 0 <= mk < 19 and 0 <= order < 2 and 0 <= tdi < 3 and 0 <= cmd < 8
+    pre: 0 <= mk < 22 and 0 <= order < 2 and 0 <= tdi < 3 and 0 <= cmd < 8
     post: _ == ''
     """
-    return _case(rt.sel(mk, 19), rt.sel(order, 2), rt.sel(tdi, 3), rt.sel(cmd, 8))
+    return _case(rt.sel(mk, 22), rt.sel(order, 2), rt.sel(tdi, 3), rt.sel(cmd, 8))
 
 
 def obligations(tier):
@@ -202,5 +205,5 @@ def obligations(tier):
            encodes=['trashcli.restore.sort_method.sort_files', 'sorter_for'], bounds='3 entries, symbolic presence of each date, symbolic sharing of original paths, 3 sort modes'),
         CH('W_neighbour_x_order_x_dir_x_cmd', MOD, 'w_main', timeout=900, partitions=list(range(8)), engine='W', regime='selector',
            encodes=K.LIST_FUNCS + K.RESTORE_FUNCS + K.RM_FUNCS + K.EMPTY_FUNCS, stubs=K.STUBS,
-           bounds='19 neighbours x 2 directory orders x 3 trash dirs x 8 command/argument combinations'),
+           bounds='22 neighbours x 2 directory orders x 3 trash dirs x 8 command/argument combinations'),
     ]
